@@ -223,7 +223,7 @@ func (k msgServer) PollVote(goCtx context.Context, msg *types.MsgPollVote) (*typ
 		return nil, pErr
 	}
 
-	if poll.VotingEndTime.Before(time.Now()) {
+	if poll.VotingEndTime.Before(ctx.BlockTime()) {
 		return nil, types.ErrVotingTimeEnded
 	}
 
